@@ -133,6 +133,7 @@ def check(model, R, tier):
     ok = len(binds) == 1 and norm(binds[0].value) in ('[]', 'list()')
     R.ob('C19.ORDER', B.f.qualname, 'sweep order container %s = %s' % (B.order, norm(binds[0].value) if binds else None), ok, 'the backward order must come from an ordered list, not from the visited set', B.f.loc)
     mp = model.func('synapgrad.nn.modules.Module.__init__')
+    check_uninit(model, R)
     # ---------------------------------------------------------------- NOADDR
     n_id = 0
     for fn in model.funcs.values():
@@ -174,3 +175,80 @@ def check(model, R, tier):
                     'sweep order comes from a list; id()/hash() values are used for membership only.' % n_reach,
         assumptions=['NumPy legacy global RNG and Python random are deterministic functions of their seed', 'visual/graph.py (drawing) is off the numeric call graph'],
         technique='who-may-call scan over resolved callees + local type inference of set-valued names + syntactic taint of id()/hash()')
+
+
+# ------------------------------------------------------------------------------------------------ UNINIT
+class _Empty:
+    n = 0
+
+    def __init__(self, where):
+        _Empty.n += 1
+        self.where = where
+        self.text = self.loc_text = 'empty#%d' % _Empty.n
+
+    def __repr__(self):
+        return self.text
+
+
+from sa.poly import P
+
+
+def check_uninit(model, R):
+    """memory obtained from empty() (uninitialised: whatever the allocator recycles) must be filled on EVERY path before it becomes state of an object:
+    evaluated by partial evaluation of every function that allocates with empty(), over all paths of its flags"""
+    from sa.peval import PE
+    EMPTY = {'synapgrad.tensor.empty', 'synapgrad.empty', 'numpy.empty', 'numpy.empty_like'}
+    users = []
+    for fn in model.funcs.values():
+        if fn.mod.modname.startswith('synapgrad.visual') or fn.qualname in ('synapgrad.tensor.empty',) or fn.parent is not None:
+            continue
+        if any(isinstance(c, ast.Call) and (model.resolve(fn.mod, c.func) in EMPTY) for c in ast.walk(fn.node)):
+            users.append(fn)
+    R.rule('C19.UNINIT', 'storage allocated with empty() is filled (an nn.init filler, or a whole-array store) on every path before the allocating function ends: '
+                         'otherwise recycled allocator memory becomes parameter / buffer state and results differ between runs', floor=max(1, len(users)))
+    for fn in users:
+        def call_hook(pe, name, e, args, kw, env, func, depth, fn=fn):
+            n = name or ''
+            if n in EMPTY:
+                o = _Empty('%s:%d' % (func.mod.relpath, e.lineno))
+                pe.user.setdefault('empties', []).append(o)
+                return o
+            if n.endswith('.Parameter') and args and isinstance(args[0], _Empty):
+                return args[0]
+            if n.startswith('synapgrad.nn.init.') and n.endswith('_') and not n.rsplit('.', 1)[1].startswith('_') and args:
+                if isinstance(args[0], _Empty):
+                    pe.user.setdefault('filled', set()).add(args[0].text)
+                return args[0]
+            if isinstance(e.func, ast.Attribute) and e.func.attr in ('fill_', 'zero_', 'fill', 'copy_from', 'copy_'):
+                v = pe.expr(e.func.value, env, func, depth)
+                if isinstance(v, _Empty):
+                    pe.user.setdefault('filled', set()).add(v.text)
+                    return v
+            return NotImplemented
+        try:
+            outs = PE(model, call_hook=call_hook, atoms_not_none=True, max_depth=4).paths(fn, {p_: P.atom(p_) for p_ in fn.pos_params[1:] if p_ != 'self'}, max_paths=256)
+        except Incomplete as u:
+            R.incomplete_at('C19.UNINIT', fn.qualname, str(u))
+            continue
+        bad = []
+        n_emp = 0
+        for o in outs:
+            if o.kind == 'raise':
+                continue
+            filled = set(o.user.get('filled', set()))
+            for key, v, st in o.stores:
+                if isinstance(v, _Empty):
+                    pass
+                # a whole-array store into the data of an empty tensor initialises it
+                for e_ in o.user.get('empties', []):
+                    if key.startswith(e_.text + '.data') or key == e_.text + '.data':
+                        filled.add(e_.text)
+            kept = {v.text: key for key, v, st in o.stores if isinstance(v, _Empty)}
+            if isinstance(o.value, _Empty):
+                kept[o.value.text] = '<returned>'
+            for e_ in o.user.get('empties', []):
+                n_emp += 1
+                if e_.text in kept and e_.text not in filled:
+                    bad.append('%s allocated at %s stays uninitialised under %s' % (kept[e_.text], e_.where, [c for c in o.conds][-4:]))
+        R.ob('C19.UNINIT', fn.qualname, '%d empty() allocation(s) over %d path(s): all filled before the function ends' % (n_emp, len(outs)), not bad,
+             'uninitialised memory becomes state: %s' % sorted(set(bad))[:2], fn.loc)
